@@ -442,7 +442,11 @@ def trcl_deck(rnd):
     d.surfs.append(dk.Surf(big, 'so', [Fr(20)]))
     if rnd.random() < 0.6:
         # the moved surface (elementary or macrobody) referenced from another cell by its implicit number
-        d.cells.append(dk.Cell(2, ('and', ('s', 1001), ('s', -big)) if kind in ('so', 'tz', 'rpp') else ('and', ('cell', 1), ('s', -big)), imp=1))
+        if kind in ('so', 'tz', 'rpp') and rnd.random() < 0.5:
+            # negative sense of the implicit surface: the moved body itself, seen from another cell
+            d.cells.append(dk.Cell(2, ('and', ('s', -1001), ('s', -big), ('cell', 1)), imp=1))
+        else:
+            d.cells.append(dk.Cell(2, ('and', ('s', 1001), ('s', -big)) if kind in ('so', 'tz', 'rpp') else ('and', ('cell', 1), ('s', -big)), imp=1))
     else:
         d.cells.append(dk.Cell(2, ('and', ('cell', 1), ('s', -big)), imp=1))
     d.cells.append(dk.Cell(3, ('s', big), imp=0))
@@ -495,7 +499,7 @@ def tasks_for(tier):
             out.append(('L2', (u, rname, R)))
     # layer 3
     base = seed() * 1299709
-    for i in range(24 if tier == 'quick' else 300):
+    for i in range(24 if tier == 'quick' else 600):
         out.append(('L3', base + i))
     return out
 
